@@ -251,6 +251,15 @@ def unit(u) -> Stats:
                             st.violation(f"[regret n={n} limit={limit} plus={plus}] a saved-then-loaded minimiser does not continue identically",
                                          history=[list(h) for h in hist + [losses]], saveload=True, **doc)
                             return st
+                        # the checkpoint itself must not move when a minimiser loaded from it keeps iterating: load it AGAIN
+                        again = GameRegretMinimizer.load(p)
+                        st.evals += 1
+                        if not (np.array_equal(np.asarray(again.cumulative_regret), s2[0]) and np.array_equal(np.asarray(again.cumulative_strategy), s2[1])
+                                and again.iteration == s2[2]):
+                            st.violation(f"[regret n={n} limit={limit} plus={plus}] loading the same checkpoint a second time (after the first loaded minimiser "
+                                         f"iterated) gives different tables: the checkpoint on disk was modified", history=[list(h) for h in hist + [losses]],
+                                         saveload=True, **doc)
+                            return st
                     k = ctx.key(s2)
                     if k not in seen:
                         seen.add(k)
